@@ -37,7 +37,7 @@ if not skip:
         out["demo_fail_excerpt"] = "\n".join([l for l in o1.split("\n") if "FAIL" in l or "Error" in l or "want" in l][:8])
         os.remove(demo_dst)
         # touched packages: baseline tests
-        rc, files = sh("git diff --name-only", cwd=wt)
+        rc, files = sh("git diff --name-only HEAD", cwd=wt)
         pkgs = sorted(set("./" + os.path.dirname(f) + "/" for f in files.split() if f.endswith(".go")))
         out["touched_packages"] = pkgs
         p = subprocess.run(["go", "test", "-json", "-vet=off", "-count=1", "-timeout", "20m"] + pkgs, cwd=wt, env=env, capture_output=True, text=True)
@@ -76,16 +76,29 @@ finally:
 # restore the evidence of the unchanged tree later (caller reruns the check)
 dst = os.path.join("/verif/seeded", sid)
 os.makedirs(dst, exist_ok=True)
-shutil.copy(patch, os.path.join(dst, "patch.diff"))
-if os.path.exists(os.path.join(src, "demo_test.go")):
+if os.path.abspath(src) != os.path.abspath(dst):
+    shutil.copy(patch, os.path.join(dst, "patch.diff"))
+if os.path.abspath(src) != os.path.abspath(dst) and os.path.exists(os.path.join(src, "demo_test.go")):
     shutil.copy(os.path.join(src, "demo_test.go"), os.path.join(dst, "demo_test.go.txt"))
 meta = {}
 mp = os.path.join(src, "meta.json")
+if os.path.abspath(src) == os.path.abspath(dst):
+    mp = os.path.join(dst, "meta.json")
 if os.path.exists(mp):
     try:
         meta = json.load(open(mp))
     except Exception:
         meta = {"raw": open(mp).read()[:2000]}
+old_meta_p = os.path.join(dst, "meta.json")
+if skip and os.path.exists(old_meta_p):
+    # re-evaluation after a check was strengthened: keep the confirmation results and the earlier verdict
+    prev = json.load(open(old_meta_p)).get("evaluation", {})
+    merged = dict(prev)
+    hist = prev.get("earlier_runs", [])
+    hist.append({k: prev.get(k) for k in ("check_cmd", "check_exit", "check_violations", "caught")})
+    merged.update(out)
+    merged["earlier_runs"] = hist
+    out = merged
 meta["evaluation"] = out
 meta["demo_package_dir"] = demopkg
 meta["demo_run_regex"] = demorx
